@@ -83,6 +83,7 @@ func (c *Crash) TopFrame(substrs ...string) string {
 
 // Config configures one run
 type Config struct {
+	FineYields bool // every instrumented function entry is a preemption point as well (much longer runs; used in a fraction of them)
 	Seed       uint64
 	Replay     []uint32 // if non-nil, decisions are replayed (0 when exhausted)
 	ReplayMode bool
@@ -195,6 +196,8 @@ func Run(t *testing.T, cfg Config, driver func()) (res Result) {
 		cfg.MaxSimTime = 48 * time.Hour
 	}
 	s := &Sched{cfg: cfg, notify: make(chan struct{}, 1)}
+	fine = cfg.FineYields
+	defer func() { fine = false }()
 	s.dec = newDecisions(cfg.Seed, cfg.Replay, cfg.ReplayMode)
 	defer func() {
 		active.Store(nil)
@@ -616,6 +619,19 @@ func yieldG(g *G, site string) {
 	g.awaitTurn()
 	if g.frozen {
 		parkForever(g)
+	}
+}
+
+// fine is set for the duration of a run that asked for fine-grained interleaving (read by the goroutines of that run only)
+var fine bool
+
+// Enter is the preemption point the instrumenter puts at the entry of every larger function of the system under test
+func Enter(site string) {
+	if !fine {
+		return
+	}
+	if g := current(); g != nil {
+		yieldG(g, site)
 	}
 }
 
